@@ -654,10 +654,12 @@ theorem collection_observers (m : List (Range α)) (hm : MultiRange.Inv m) :
   · intro i x h; exact List.mem_of_getElem? h
 
 /-- **copy_deep**: the copy constructor and `operator=` produce a collection equal to the source,
-whatever the target held; in the model collections are values, so a later operation on one of
-them cannot change the other (the tie checks this on the implementation) -/
+whatever the target held, and self-assignment leaves the object as it is (the unguarded code of
+round 1 emptied it: `findings/C20.json`); in the model collections are values, so a later
+operation on one of them cannot change the other (the tie checks this on the implementation) -/
 theorem copy_deep (tgt src : List (Range α)) :
-    RangeCollection.copy src = src ∧ RangeCollection.assign tgt src = src := by
+    RangeCollection.copy src = src ∧ RangeCollection.assign false tgt src = src ∧
+    RangeCollection.assign true tgt tgt = tgt := by
   have : (Range.clone : Range α → Range α) = id := funext fun x => rfl
   simp [RangeCollection.copy, RangeCollection.assign, RangeCollection.clear, this]
 
